@@ -484,17 +484,17 @@ func genCases(o *lib.Opts) {
 			}
 		}
 	}
-	// 4. nesting depth 1..66 of every container kind (64 levels are the documented limit)
+	// 4. nesting depth 1..67 of every container kind (maxRecursionDepth = 65 levels, leaves included, is the limit)
 	for _, kind := range []int{lib.STRUCT, lib.LIST, lib.SET, lib.MAP} {
-		for lv := 1; lv <= 66; lv++ {
+		for lv := 1; lv <= 67; lv++ {
 			if !thorough && lv > 3 && lv < 61 && lv%10 != 0 {
 				continue
 			}
 			for _, leaf := range []int{lib.BYTE, lib.STRING, lib.BOOL} {
 				t, v := lib.Nest(kind, lv-1, leaf, g.Value(nil, leaf, 0), kind == lib.MAP && lv%2 == 0)
 				b := append([]byte{byte(t), 0, 5}, v...)
-				emitBytes(fmt.Sprintf("depth:%d", depthClass(lv)), b, lv >= 62)
-				if lv >= 62 { // a second field after the deep one
+				emitBytes(fmt.Sprintf("depth:%d", depthClass(lv)), b, lv >= 63)
+				if lv >= 63 { // a second field after the deep one
 					emitBytes(fmt.Sprintf("depth:%d", depthClass(lv)), append(b, lib.I16, 0, 6, 1, 2), false)
 				}
 			}
